@@ -1146,6 +1146,11 @@ func SMTScript(roots []*Term) string {
 			s = fmt.Sprintf("((_ zero_extend %d) %s)", t.p1, ref(t.args[0]))
 		case OSext:
 			s = fmt.Sprintf("((_ sign_extend %d) %s)", t.p1, ref(t.args[0]))
+		case OBv2IntS:
+			// signed value of a bit-vector
+			w := t.args[0].sort.W
+			x := ref(t.args[0])
+			s = fmt.Sprintf("(ite (bvslt %s (_ bv0 %d)) (- (bv2nat %s) %s) (bv2nat %s))", x, w, x, pow2(w).String(), x)
 		case OUF:
 			if len(t.args) == 0 {
 				s = smtName(t.name)
